@@ -23,7 +23,7 @@ impl Deserialize for Strings {
                 cbor_event::Len::Len(n) => arr.len() < n as usize,
                 cbor_event::Len::Indefinite => true,
             } {
-                if is_break_tag(raw, "Strings")? {
+                if is_break_tag(raw, &len, "Strings")? {
                     break;
                 }
                 arr.push(String::deserialize(raw)?);
